@@ -313,11 +313,24 @@ def _syncChildren(parent, wanted, managed=None, before=None):
     parent[:] = kept[:pos] + wanted + kept[pos:]
 
 
-def _correctValInNode(outernode, tagname, value):
+def _correctValInNode(outernode, tagname, value, order=None):
+    """Add, update or remove the child of `outernode` holding one optional value.
+
+    `order` lists the tag names of the possible children in the order the
+    schema wants them; a new child goes in front of the first existing child
+    that comes later in that list (at the end without it).
+    """
     innernode = outernode.find(tag(tagname))
     if value is None and innernode is not None:
         outernode.remove(innernode)
     elif innernode is not None:
         innernode.text = str(value)
     elif value is not None:
-        outernode.append(E(tagname, str(value)))
+        pos = len(outernode)
+        if order is not None and tagname in order:
+            later = [tag(name) for name in order[order.index(tagname) + 1:]]
+            for i, child in enumerate(outernode):
+                if child.tag in later:
+                    pos = i
+                    break
+        outernode.insert(pos, E(tagname, str(value)))
